@@ -40,6 +40,9 @@ CHECKS = {
  "C14": dict(cat="proof", tech="contract-based deductive: set-point generators traced from the real code with SO3Quat.from_Matrix/from_Euler replaced by their contracts at the call sites; orthonormality, determinant, alignment, thrust magnitude, flatness rates and Euler's equation decided as ring identities with norm (root) atoms per branch (ALG) + SMT for signs",
              text="Nominal branches: the matrix handed to from_Matrix is a proper rotation whose z axis is the normalised demanded force and whose y axis is perpendicular to the heading, nT = |force|; mr_ref_traj rates equal the rotation rate of the thrust axis along the trajectory and the moment satisfies Euler's equation; f_ref agrees with mr_ref_traj. Degenerate branches are explored exhaustively: the documented fallbacks are NOT proper rotations (known findings, listed).",
              note="A-GRAPH; real arithmetic; callee contracts from C07; CasADi AD; se23 outer loop with identity gain shaping (feed-forward free)", ref="5/C14"),
+ "C15": dict(cat="proof", tech="contract-based deductive: controller functions traced from the real code; saturation bounds as per-call postconditions decided by z3/cvc5 over the extracted piecewise graphs (hybrid ring+SMT encoder), stick maps and error laws as ring identities (ALG), call-site (modular) obligations on top of the log/exp contracts",
+             text="Integrator output within +-i_max for every previous state, filter coefficient in (0,1), feedback term <= 30% of weight, height integrator within its limit, yaw set-point in [-pi, pi], 2 m leash, reset; stick maps linear; attitude laws: omega = kp*e (resp. J_l(e) diag(kp) e), R(q) exp(e) = R(q_r), and e = 0 exactly for q_r = q and q_r = -q. Bounds hold for every previous state, hence along arbitrarily long runs.",
+             note="A-GRAPH; real arithmetic; z3/cvc5; libm contract of remainder; closed-form cell for `reach` (Taylor cell in C06); callee contracts from C03/C07", ref="5/C15"),
 }
 NA = {
  "C17": "closed-loop convergence of the hybrid cascade from an envelope of initial conditions is a whole-trajectory property; no pre/postcondition on a function of /repo expresses it short of a Lyapunov certificate (its per-call ingredients are C13, C15, C16)",
